@@ -184,6 +184,9 @@ func (c *AtlasClient) downloadClusterLogsForHost(ctx context.Context, publicKey,
 
 	_, err = io.Copy(tmpFile, resp.Body)
 	if err != nil {
+		// Do not leave a partially downloaded raw log behind
+		tmpFile.Close()
+		_ = os.Remove(tmpFile.Name())
 		return "", fmt.Errorf("failed to write log to temp file: %w", err)
 	}
 
